@@ -256,17 +256,20 @@ fn match_nested_brackets<'text: 'a, 'a, Sc, A>(
                     found_end: lexer.peek_token_span().unwrap(),
                 }),
 
-                Some((t, n)) if t == idx && n > 1 => {
+                // Closes one of several consecutive brackets of this kind.
+                Some((t, n)) if n > 1 => {
                     opened.push((t, n-1));
                 },
-                Some((t, n)) if t == idx && n == 1 && opened.is_empty() => {
+                // Closes the outermost bracket.
+                Some(_) if opened.is_empty() => {
                     return Ok(BracketMatch {
                         open: open_lexer.unwrap(),
                         close: lexer,
                         index: idx,
                     });
                 },
-                Some(_) => unreachable!(),
+                // Closes an inner bracket nested in brackets of another kind.
+                Some(_) => (),
             }
         } else if let Some(idx) = open_tokens.iter().position(|t| t == &tok) {
             event!(Level::TRACE, "found open token ({:?} idx={} @ {})",
@@ -283,10 +286,9 @@ fn match_nested_brackets<'text: 'a, 'a, Sc, A>(
                     opened.push((t, n));
                     opened.push((idx, 1));
                 },
-                Some((t, n)) if t == idx => {
+                Some((t, n)) => {
                     opened.push((t, n+1));
                 },
-                Some(_) => unreachable!(),
             }
         } else if abort_pred(&tok) && open_lexer.is_none() {
             event!(Level::TRACE, "found abort token ({:?})", tok);
